@@ -284,7 +284,7 @@ theorem foldl_addLoaded_take (g : Graph) (hS : StartsOK g) (hG : GoalsOK g) (hD 
         simp only [Graph.markGoal, Graph.isGoal, hfG]
         have : k < (g.verts.take (k+1)).length := by simp; omega
         simp only [this, if_true]
-        simp
+        rw [insertSorted_append _ _ (by intro y hy; simpa using (List.mem_filter.mp hy).2)]
         rw [filter_lt_succ_mem _ _ hG.1 hg, filter_lt_succ_not_mem _ _ hs]
         simp
       · have hg' : g.isGoal k = false := by
@@ -437,9 +437,10 @@ theorem except_eq_ok_of_decide {ε α : Type} [DecidableEq α] (x : Except ε α
   | ok v => simp at h; rw [h]
   | error e => simp at h
 
-/-- three vertices, goals marked in the order 2, 0 (`markGoalState` does not sort `goalVertexIndices_`) -/
+/-- three vertices, goals marked in the order 2, 0 with the operation as it was before fix 4a60b3f19
+(`markGoalState` did not sort `goalVertexIndices_`) -/
 def gUnsortedGoals : Graph :=
-  ((((({} : Graph).addVertex ⟨0, []⟩).addVertex ⟨0, []⟩).addVertex ⟨0, []⟩).markGoal 2).markGoal 0
+  ((((({} : Graph).addVertex ⟨0, []⟩).addVertex ⟨0, []⟩).addVertex ⟨0, []⟩).markGoalOld 2).markGoalOld 0
 
 /-- one vertex that is both start and goal -/
 def gStartAndGoal : Graph :=
@@ -453,9 +454,9 @@ theorem gStartAndGoal_eq :
     gStartAndGoal = { verts := [⟨0, []⟩], edges := [], starts := [0], goals := [0] } := by
   decide
 
-/-- Defect (a): all hypotheses of `load_store_graph` hold except that the goal list is not ascending
+/-- Defect (a) of the code before 4a60b3f19: all hypotheses of `load_store_graph` hold except that the goal list is not ascending
 (it is still duplicate-free and in range); both goals are lost on the round trip. -/
-theorem load_store_unsorted_goals_fails (m : Nat) (sig csig : List Int) :
+theorem load_store_unsorted_goals_old_fails (m : Nat) (sig csig : List Int) :
     gUnsortedGoals.WF ∧ StartsOK gUnsortedGoals ∧ Disjoint gUnsortedGoals ∧
     gUnsortedGoals.goals = [2, 0] ∧ (∀ i ∈ gUnsortedGoals.goals, i < gUnsortedGoals.verts.length) ∧
     loadGraph m sig csig (storeGraph m sig csig gUnsortedGoals) = .ok { gUnsortedGoals with goals := [] } := by
@@ -493,7 +494,7 @@ theorem load_store_graph_needs_sorted_goals :
         ∃ g', loadGraph m sig csig (storeGraph m sig csig g) = .ok g' ∧
           g'.verts = g.verts ∧ g'.edges = g.edges ∧ g'.starts = g.starts ∧ g'.goals = g.goals := by
   intro h
-  obtain ⟨hW, hS, hD, hg, hr, hl⟩ := load_store_unsorted_goals_fails 0 [] []
+  obtain ⟨hW, hS, hD, hg, hr, hl⟩ := load_store_unsorted_goals_old_fails 0 [] []
   obtain ⟨g', h1, _, _, _, h5⟩ := h 0 [] [] gUnsortedGoals hW hS hD hr
   rw [hl] at h1
   injection h1 with h1
@@ -649,6 +650,118 @@ theorem StartsOK_addVertex (g : Graph) (v : Vertex) (h : StartsOK g) : StartsOK 
   intro a ha
   have := h.2 a ha
   simp [Graph.addVertex]; omega
+
+theorem GoalsOK_markGoal (g : Graph) (i : Nat) (h : GoalsOK g) : GoalsOK (g.markGoal i) := by
+  unfold Graph.markGoal
+  split
+  · next hi =>
+    split
+    · exact h
+    · next hns =>
+      have hni : i ∉ g.goals := fun hm => hns ((binSearch_sorted _ _ h.1).mpr hm)
+      refine ⟨insertSorted_sorted _ _ h.1 hni, ?_⟩
+      intro a ha
+      rcases (mem_insertSorted i a g.goals).mp ha with rfl | ha
+      · exact hi
+      · exact h.2 a ha
+  · exact h
+
+theorem GoalsOK_addVertex (g : Graph) (v : Vertex) (h : GoalsOK g) : GoalsOK (g.addVertex v) := by
+  refine ⟨h.1, ?_⟩
+  intro a ha
+  have := h.2 a ha
+  simp [Graph.addVertex]; omega
+
+/-- everything the round trip needs about a graph -/
+def Graph.Inv (g : Graph) : Prop := g.WF ∧ StartsOK g ∧ GoalsOK g
+
+theorem Inv_empty : ({} : Graph).Inv := by
+  simp [Graph.Inv, Graph.WF, StartsOK, GoalsOK]
+
+theorem Inv_addVertex (g : Graph) (v : Vertex) (h : g.Inv) : (g.addVertex v).Inv :=
+  ⟨WF_addVertex g v h.1, StartsOK_addVertex g v h.2.1, GoalsOK_addVertex g v h.2.2⟩
+
+theorem Inv_addEdge (g : Graph) (e : ERec) (h : g.Inv) : (g.addEdge e).1.Inv := by
+  refine ⟨WF_addEdge g e h.1, ?_, ?_⟩
+  · unfold Graph.addEdge; split
+    · exact h.2.1
+    · split
+      · exact h.2.1
+      · exact h.2.1
+  · unfold Graph.addEdge; split
+    · exact h.2.2
+    · split
+      · exact h.2.2
+      · exact h.2.2
+
+theorem Inv_markStart (g : Graph) (i : Nat) (h : g.Inv) : (g.markStart i).Inv := by
+  refine ⟨?_, StartsOK_markStart g i h.2.1, ?_⟩
+  · unfold Graph.markStart; split
+    · split
+      · exact h.1
+      · exact h.1
+    · exact h.1
+  · unfold Graph.markStart; split
+    · split
+      · exact h.2.2
+      · exact h.2.2
+    · exact h.2.2
+
+theorem Inv_markGoal (g : Graph) (i : Nat) (h : g.Inv) : (g.markGoal i).Inv := by
+  refine ⟨?_, ?_, GoalsOK_markGoal g i h.2.2⟩
+  · unfold Graph.markGoal; split
+    · split
+      · exact h.1
+      · exact h.1
+    · exact h.1
+  · unfold Graph.markGoal; split
+    · split
+      · exact h.2.1
+      · exact h.2.1
+    · exact h.2.1
+
+theorem Inv_setTag (g : Graph) (i : Nat) (t : Int) (h : g.Inv) : (g.setTag i t).Inv := by
+  obtain ⟨⟨h1, h2, h3⟩, hs, hg⟩ := h
+  refine ⟨⟨?_, h2, h3⟩, ⟨hs.1, ?_⟩, ⟨hg.1, ?_⟩⟩
+  · intro e he; simpa [Graph.setTag] using h1 e he
+  · intro a ha; simpa [Graph.setTag] using hs.2 a ha
+  · intro a ha; simpa [Graph.setTag] using hg.2 a ha
+
+theorem Inv_removeEdge (g : Graph) (a b : Nat) (h : g.Inv) : (g.removeEdge a b).1.Inv := by
+  unfold Graph.removeEdge
+  split
+  · exact h
+  · split
+    · obtain ⟨⟨h1, h2, h3⟩, hs, hg⟩ := h
+      refine ⟨⟨?_, h2.filter _, h3.filter _⟩, hs, hg⟩
+      intro e he
+      exact h1 e (List.mem_filter.mp he).1
+    · exact h
+
+/-- graphs reachable from the empty `PlannerData` by the (fixed) operations -/
+inductive Built : Graph → Prop
+  | empty : Built {}
+  | addVertex {g} (v : Vertex) : Built g → Built (g.addVertex v)
+  | addEdge {g} (e : ERec) : Built g → Built (g.addEdge e).1
+  | markStart {g} (i : Nat) : Built g → Built (g.markStart i)
+  | markGoal {g} (i : Nat) : Built g → Built (g.markGoal i)
+  | setTag {g} (i : Nat) (t : Int) : Built g → Built (g.setTag i t)
+  | removeEdge {g} (a b : Nat) : Built g → Built (g.removeEdge a b).1
+
+theorem Built.inv {g : Graph} (h : Built g) : g.Inv := by
+  induction h with
+  | empty => exact Inv_empty
+  | addVertex v _ ih => exact Inv_addVertex _ v ih
+  | addEdge e _ ih => exact Inv_addEdge _ e ih
+  | markStart i _ ih => exact Inv_markStart _ i ih
+  | markGoal i _ ih => exact Inv_markGoal _ i ih
+  | setTag i t _ ih => exact Inv_setTag _ i t ih
+  | removeEdge a b _ ih => exact Inv_removeEdge _ a b ih
+
+/-- the round trip for every graph the fixed operations can build, in which no vertex is both start and goal -/
+theorem load_store_graph_built (m : Nat) (sig csig : List Int) (g : Graph) (hb : Built g) (hD : Disjoint g) :
+    loadGraph m sig csig (storeGraph m sig csig g) = .ok g :=
+  load_store_graph_eq m sig csig g hb.inv.1 hb.inv.2.1 hb.inv.2.2 hD
 
 /-! ## C. copyStateData
 
